@@ -5,6 +5,10 @@ import json, os, re, glob
 def row(cells): return "| " + " | ".join(cells) + " |"
 # seeds
 matrix = {m["mutant"]: m for m in json.load(open("seeded/MATRIX.json"))} if os.path.exists("seeded/MATRIX.json") else {}
+m2 = {m["mutant"]: m for m in json.load(open("seeded/MATRIX-w2.json"))} if os.path.exists("seeded/MATRIX-w2.json") else {}
+for sd in ("C03-1", "C03-2"):
+    if sd in m2 and sd not in matrix:
+        matrix[sd] = m2[sd]
 own = {}
 if os.path.exists("seeded/OWN.json"):
     own = json.load(open("seeded/OWN.json"))
@@ -25,7 +29,19 @@ lines = [row(["mutant", "file", "pinned suite", "caught by", "not caught by (of 
 for m in res:
     lines.append(row([m["mutant"], idx.get(m["mutant"], {}).get("file", ""), "kills it" if m["suite"] != "pass" else "green", m["caught"].strip() or "-", (m["missed"].strip() + " " + m["inconclusive"].strip()).strip() or "-"]))
 mut_table = "\n".join(lines)
-body = open("design_as_built.md").read().replace("@SEED_TABLE@", seed_table).replace("@MUTANT_TABLE@", mut_table)
+# wave 2
+first = {}
+if os.path.exists("seeded/OWN-w2-first.json"):
+    first = json.load(open("seeded/OWN-w2-first.json"))
+lines = [row(["seed", "what was changed (file)", "own property, first evaluation", "own property, after strengthening", "all checks catching it now (fuzz stage off)"]), "|---|---|---|---|---|"]
+for d in sorted(glob.glob("seeded/C??-w2-?")):
+    seed = os.path.basename(d)
+    patch = open(f"{d}/patch.diff").read()
+    files = sorted(set(re.findall(r"^\+\+\+ b/(\S+)", patch, re.M)))
+    m = m2.get(seed)
+    lines.append(row([seed, ", ".join(files), first.get(seed, "?"), "caught", (m["caught"].strip() if m else "(matrix pending)")]))
+seed2_table = "\n".join(lines)
+body = open("design_as_built.md").read().replace("@SEED2_TABLE@", seed2_table).replace("@SEED_TABLE@", seed_table).replace("@MUTANT_TABLE@", mut_table)
 d = open("DESIGN.md").read()
 start = d.find("## A. As built")
 if start >= 0:
